@@ -148,7 +148,7 @@ def _s_ifexp_ml(f):
 LETTER = [
     ('binop_twice', 's = "¡" + a  # ¢\n', _s_twice_binop, 'quick'),
     ('call_arg_twice', 'r = f("¡", a, k="¢")  # £\n', _s_call_arg, 'quick'),
-    ('subscript_star', 'é = "¡"; x["¢"][a]\n', lambda f: f.body[1].value.slice.replace('i, *j'), 'thorough'),
+    ('subscript_star', 'é = "¡"; x["¢"][a]\n', lambda f: f.body[1].value.slice.replace('i, *j') and None, 'thorough'),
     ('ml_in_list', 'x = ["¡", a,  # ¢\n     "£"]\n', _s_ifexp_ml, 'thorough'),
 ]
 
